@@ -278,9 +278,16 @@ func jwtKidBody(signature bool) {
 	var keys []*kidKey
 	for i, k := range ks.Keys {
 		kk := &kidKey{k: k}
-		if k.Kind == 3 && verifrt.Choice(string([]byte{'c', byte('0' + i)}), 2) == 1 {
-			c := string(verifrt.Bytes(string([]byte{'c', byte('0' + i), 'v'}), 2))
-			kk.custom = &c
+		if k.Kind == 3 {
+			// no custom kid, a 2-character custom kid, or the EMPTY custom kid (legal: "kid":"")
+			switch verifrt.Choice(string([]byte{'c', byte('0' + i)}), 3) {
+			case 1:
+				c := string(verifrt.Bytes(string([]byte{'c', byte('0' + i), 'v'}), 2))
+				kk.custom = &c
+			case 2:
+				c := ""
+				kk.custom = &c
+			}
 		}
 		keys = append(keys, kk)
 	}
